@@ -378,6 +378,60 @@ func genC03(g *Gen) {
 		}
 		p.Clients = append(p.Clients, cp)
 	}
+	if p.Variant == "swarm" {
+		// everything at once: stale views with MOVED/ASK redirects and erroring / stalling fragments on top of the above
+		t2 := cloneTopo(base)
+		var ms []int
+		for i, n := range t2.Nodes {
+			if n.Master && len(n.Slots) > 0 {
+				ms = append(ms, i)
+			}
+		}
+		if len(ms) >= 2 {
+			src, dst := &t2.Nodes[ms[0]], &t2.Nodes[ms[1]]
+			r := src.Slots[0]
+			if r[1]-r[0] > 10 {
+				mid := (r[0] + r[1]) / 2
+				src.Slots[0] = [2]int{r[0], mid}
+				dst.Slots = append(dst.Slots, [2]int{mid + 1, r[1]})
+				p.Topos = append(p.Topos, t2)
+				for _, nd := range base.Nodes {
+					p.Events = append(p.Events, Event{Kind: "set-view", When: When{Step: 1}, Node: nd.Addr, Topo: 0})
+				}
+				p.Events = append(p.Events, Event{Kind: "set-topo", When: When{Step: g.R.Range(1, 60)}, Topo: 1})
+				if g.R.Pct(50) {
+					rg := base.Nodes[ms[len(ms)-1]].Slots[0]
+					p.Events = append(p.Events, Event{Kind: "migrate", When: When{Step: g.R.Range(1, 60)}, Slot: g.R.Range(rg[0], rg[1]), To: base.Nodes[ms[0]].Addr})
+				}
+			}
+		}
+		for ci := range p.Clients {
+			for ri := range p.Clients[ci].Reqs {
+				rq := &p.Clients[ci].Reqs[ri]
+				if (rq.Class == "single" || rq.Class == "split") && g.R.Pct(20) {
+					// re-key one key with an error / stall directive (the token stays, so attribution is unchanged)
+					sfx := g.R.Pick([]string{"~E1", "~E4", "~E6", "~T", "~D700"})
+					if p.Proxy.TimeoutMs == 0 && (sfx == "~T" || sfx == "~D700") {
+						sfx = "~E2"
+					}
+					args, _, st, _ := ParseRedisQuery(rq.Raw)
+					if st != QOk || len(args) < 2 {
+						continue
+					}
+					a := make([][]byte, len(args))
+					copy(a, args)
+					old := string(a[1])
+					a[1] = []byte(old + sfx)
+					rq.Raw = EncodeCommand(a...)
+					for k := range rq.Keys {
+						if rq.Keys[k] == old {
+							rq.Keys[k] = old + sfx
+						}
+					}
+				}
+			}
+		}
+	}
 	// backend connections killed and re-dialled mid-run
 	for i := g.R.Intn(3); i > 0; i-- {
 		ci := g.R.Intn(nc)
